@@ -96,7 +96,7 @@ Qed.
 Lemma sp_clock_final c : forall ops a, sp_clock (sp_tfinal c a ops) = sp_clock a + telapsed ops.
 Proof.
   induction ops as [|o ops IH]; intro a; cbn [sp_tfinal telapsed]; [lia|].
-  rewrite IH. destruct o as [i now n r brk|ms| | |i|i now n r rp|i now n r|i|i now n r brk]; cbn [sp_tstep telapsed]; try (cbn; lia).
+  rewrite IH. destruct o as [i now n r brk|ms| | |i|i now n r rp|i now n r|i now n r ran|i|i now n r brk]; cbn [sp_tstep telapsed]; try (cbn; lia).
   - destruct (nth_error (sp_insts a) i) as [t|]; [|cbn; lia].
     destruct (alive t); cbn [negb]; [|cbn; lia]. destruct (sp_tdown a || negb brk)%bool; [cbn; lia|].
     destruct (bucket_take _ _ _ _ _). cbn. lia.
@@ -105,6 +105,9 @@ Proof.
   - destruct (nth_error (sp_insts a) i) as [t|]; [|cbn; lia].
     destruct (alive t); cbn [negb]; [|cbn; lia]. destruct (token_reply t rp r). cbn. lia.
   - destruct (nth_error (sp_insts a) i) as [t|]; cbn; lia.
+  - destruct (nth_error (sp_insts a) i) as [t|]; [|cbn; lia].
+    destruct (alive t); cbn [negb]; [|cbn; lia]. destruct ran; [|cbn; lia].
+    destruct (bucket_take _ _ _ _ _). cbn. lia.
   - destruct (nth_error (sp_insts a) i) as [t|]; [|cbn; lia].
     destruct (monitor t); cbn; lia.
   - destruct (nth_error (sp_insts a) i) as [t|]; [|cbn; lia].
